@@ -387,7 +387,7 @@ impl Property for C15 {
         }
     }
     fn rule(&self) -> &'static str {
-        "workload families run through the simulator: (1) one package with n candidates (n in 1..40 quick, 1..130 thorough, biased to 2^k-1, 2^k, 2^k+1), revealed by seeded covering version sets (singletons, ranges, overlapping subsets, full set; all containing the anchor) spread over the root and over revealer solvables, registration order varied by rank permutation, requirement order and (async) completion order; per seed 8 pair problems 'exactly p_i and exactly p_j' and 3 single problems (all pairs when n <= 24 in the thorough tier); the revealing requirements sit at the root, behind chains of revealer solvables or behind unions whose other alternative is dead, and an optional decoy temporarily constrains the package and is abandoned after a conflict; (2) embedded family (one seed in three, n <= 8): the second candidate is required through a late mandatory revealer below a package with several candidates, next to constrainer packages that force restarts and backtracking, so candidates are discovered at deep levels and while assigned false; oracle (reference-decided): a problem that needs two candidates of one package => Unsolvable, otherwise Ok(S) valid with one solvable per package; non-trivial = n >= 3; distinct = (world, trace, plan) hash"
+        "workload families run through the simulator: (1) one package with n candidates (n in 1..40 quick, 1..130 thorough, biased to 2^k-1, 2^k, 2^k+1), revealed by seeded covering version sets (singletons, ranges, overlapping subsets, full set; all containing the anchor) spread over the root and over revealer solvables, registration order varied by rank permutation, requirement order and (async) completion order; per seed 8 pair problems 'exactly p_i and exactly p_j' and 3 single problems (all pairs when n <= 24 in the thorough tier); the revealing requirements sit at the root, behind chains of revealer solvables or behind unions whose other alternative is dead, and an optional decoy temporarily constrains the package and is abandoned after a conflict; (2) embedded family (one seed in three, n <= 8): the second candidate is required through a late mandatory revealer below a package with several candidates, next to constrainer packages that force restarts and backtracking, so candidates are discovered at deep levels and while assigned false; oracle (reference-decided): a problem that needs two candidates of one package => Unsolvable, otherwise Ok(S) valid with one solvable per package; on a third of the seeds up to three candidates other than the anchor have Unknown dependencies (registered first, excluded when looked at, while further candidates are still to be revealed); non-trivial = n >= 3; distinct = (world, trace, plan) hash"
     }
     fn gen(&self, seed: u64, tier: Tier) -> Vec<Scenario> {
         let mut r = Rng::stream(seed, "world");
